@@ -15,6 +15,30 @@ import pair
 SKIPPED = ('core::operations::InsertionOutcome', 'Skipped')
 
 
+def short(name):
+    """Last two path segments of a def path (`Cell::new`, `flips::apply_bistellar_flip`)."""
+    name = name or '?'
+    if name.startswith('<'):
+        return name
+    parts = name.split('::')
+    return '::'.join(parts[-2:])
+
+
+MAXTAGS = 6
+
+
+def tag_add(tags, cb, cls):
+    t = tuple(x for x in (tags or ()) if x[0] != cb) + ((cb, cls),)
+    return t[-MAXTAGS:]
+
+
+def tag_get(tags, cb):
+    for x in (tags or ()):
+        if x[0] == cb:
+            return x[1]
+    return None
+
+
 class TxnEngine(pair.PairEngine):
 
     def __init__(self, prog, mod, resources, m_pred=None, infeasible=None, inverse_ok=None):
@@ -22,6 +46,11 @@ class TxnEngine(pair.PairEngine):
                          replace_is_m=True)
         self.meta = {}
         self.inverse_ok = inverse_ok or {}
+        self.cut_blocks = {}   # q -> set of (exit) blocks removed from the CFG
+        # owners: functions obliged to be clean on failure; a caller may rely on that contract,
+        # so an owner's summary is read as fail => clean by everyone else (each owner's own
+        # summary is still computed honestly and is what its obligation is judged on)
+        self.assume_clean = set()
 
     # ---- per-body metadata
     def body_meta(self, q):
@@ -29,10 +58,10 @@ class TxnEngine(pair.PairEngine):
             return self.meta[q]
         body = self.prog.bodies[q]
         cflows = flow.all_call_flows(body)
-        fwd = {}     # block -> call bb whose result is forwarded into _0 there
+        fwd = {}     # block -> call bbs whose result may be forwarded into _0 there
         for cb, cf in cflows.items():
             for fb in cf.forward_blocks:
-                fwd[fb] = cb
+                fwd[fb] = tuple(sorted(set(fwd.get(fb, ())) | {cb}))
         exits = {}   # block -> ex value
         rt = flow.type_kind(body.locals[0])
         for e in flow.exit_assignments(body):
@@ -49,7 +78,7 @@ class TxnEngine(pair.PairEngine):
                 if bb in fwd:
                     exits[bb] = ('fwd', fwd[bb])
                 elif cls == 'callret':
-                    exits[bb] = ('fwd', bb)
+                    exits[bb] = ('fwd', (bb,))
                 else:
                     exits[bb] = 'unknown' if rt in ('result', 'option') else 'ok'
             else:
@@ -61,7 +90,8 @@ class TxnEngine(pair.PairEngine):
                 edge_cls.setdefault(e_, []).append((cb, 'ok'))
             for e_ in cf.err_edges:
                 edge_cls.setdefault(e_, []).append((cb, 'fail'))
-        m = {'exits': exits, 'edge_cls': edge_cls, 'rt': rt}
+        fwd_calls = {cb for cb, cf in cflows.items() if cf.forward_blocks}
+        m = {'exits': exits, 'edge_cls': edge_cls, 'rt': rt, 'fwd_calls': fwd_calls}
         self.meta[q] = m
         return m
 
@@ -82,6 +112,22 @@ class TxnEngine(pair.PairEngine):
                     return True
         return False
 
+    def _apply_inverse_table(self, q, ridx):
+        """INVERSE table: {function: (inverse callee, undone callee, reason)} — in that function a
+        call of the inverse callee on the resource undoes the earlier call of the undone callee
+        (restore-by-inverse-operation, which the snapshot model does not see)."""
+        ent = self.inverse_ok.get(q)
+        if ent is None:
+            return
+        inv_callee = ent[0]
+        body = self.prog.bodies[q]
+        ev = self.trace[(q, ridx)]
+        self.inverse_sites = getattr(self, 'inverse_sites', {})
+        for bb, t in body.calls():
+            if (t.resolved or t.callee) == inv_callee:
+                ev[bb] = [('inverse', t.line)]
+                self.inverse_sites.setdefault(q, set()).add(bb)
+
     # ---- transfer
     def _apply_t(self, q, b, st, e):
         k = e[0]
@@ -96,6 +142,8 @@ class TxnEngine(pair.PairEngine):
         if k in ('call', 'call_nob'):
             callee, cidx = e[1], e[2]
             summ = self.summary.get((callee, cidx), frozenset())
+            if callee in self.assume_clean and callee != q:
+                summ = frozenset((cls, 0 if cls == 'fail' else cm) for (cls, cm) in summ)
             cb = self.prog.bodies[callee]
             if cb.kind == 'closure' or self.prog.bodies[q].blocks[b].term.k != 'call' or \
                     (self.prog.bodies[q].blocks[b].term.resolved or self.prog.bodies[q].blocks[b].term.callee) != callee:
@@ -106,7 +154,7 @@ class TxnEngine(pair.PairEngine):
             out = set()
             for (m, sv, tag, ex) in st:
                 for (cls, cm) in summ:
-                    out.add((m | cm, sv, (b, cls), ('fwd', b) if to_ret else ex))
+                    out.add((m | cm, sv, tag_add(tag, b, cls), ('fwd', (b,)) if to_ret else ex))
             return out
         return st
 
@@ -114,6 +162,7 @@ class TxnEngine(pair.PairEngine):
         body = self.prog.bodies[q]
         if (q, ridx) not in self.trace:
             self.trace[(q, ridx)] = self._events(q, ridx)
+            self._apply_inverse_table(q, ridx)
         ev = self.trace[(q, ridx)]
         meta = self.body_meta(q)
         exits, edge_cls = meta['exits'], meta['edge_cls']
@@ -137,17 +186,18 @@ class TxnEngine(pair.PairEngine):
                 st = self._apply_t(q, b, st, e)
             if b in exits:
                 ex_b = exits[b]
-                if isinstance(ex_b, tuple) and ex_b[1] == b:
+                if isinstance(ex_b, tuple) and ex_b[1] == (b,):
                     # `_0 = call(..)`: a callee without a resource summary leaves no tag
-                    st = {(m, sv, tag, ex if (isinstance(ex, tuple) and ex[1] == b) else ex_b) for (m, sv, tag, ex) in st}
+                    st = {(m, sv, tag, ex if (isinstance(ex, tuple) and ex[1] == (b,)) else ex_b) for (m, sv, tag, ex) in st}
                 else:
                     st = {(m, sv, tag, ex_b) for (m, sv, tag, ex) in st}
             if body.blocks[b].term.k == 'ret':
                 for (m, sv, tag, ex) in st:
                     for cls in self._exit_classes(meta, tag, ex):
                         out.add((cls, m))
+            cb_ = self.cut_blocks.get(q, ())
             for s in body.succs(b):
-                if (b, s) in cut:
+                if (b, s) in cut or s in cb_:
                     continue
                 st2 = st
                 ecs = edge_cls.get((b, s))
@@ -157,11 +207,11 @@ class TxnEngine(pair.PairEngine):
                         keep = True
                         ntag = tag
                         for (cb, cls) in ecs:
-                            if tag is not None and tag[0] == cb:
-                                if tag[1] != cls:
-                                    keep = False
-                                else:
-                                    ntag = None
+                            known = tag_get(tag, cb)
+                            if known is not None and known != cls:
+                                keep = False
+                            elif known is None and cb in meta['fwd_calls']:
+                                ntag = tag_add(ntag, cb, cls)
                         if keep:
                             nst.add((m, sv, ntag, ex))
                     st2 = nst
@@ -180,8 +230,10 @@ class TxnEngine(pair.PairEngine):
         if ex == 'fail':
             return ('fail',)
         if isinstance(ex, tuple):
-            if tag is not None and tag[0] == ex[1]:
-                return (tag[1],)
+            # most recent of the candidate calls whose outcome is known on this path
+            for (cb, cls) in reversed(tag or ()):
+                if cb in ex[1]:
+                    return (cls,)
             return ('ok', 'fail')
         if ex == 'unknown':
             return ('ok', 'fail')
@@ -225,8 +277,8 @@ class TxnEngine(pair.PairEngine):
                 st = self._apply_t(q, b, st, e)
             if b in exits:
                 ex_b = exits[b]
-                if isinstance(ex_b, tuple) and ex_b[1] == b:
-                    st = {(m, sv, tag, ex if (isinstance(ex, tuple) and ex[1] == b) else ex_b) for (m, sv, tag, ex) in st}
+                if isinstance(ex_b, tuple) and ex_b[1] == (b,):
+                    st = {(m, sv, tag, ex if (isinstance(ex, tuple) and ex[1] == (b,)) else ex_b) for (m, sv, tag, ex) in st}
                 else:
                     st = {(m, sv, tag, ex_b) for (m, sv, tag, ex) in st}
             for s2 in st:
@@ -235,7 +287,7 @@ class TxnEngine(pair.PairEngine):
                         goal = (node, s2)
                         break
                 for nb in body.succs(b):
-                    if (b, nb) in cut:
+                    if (b, nb) in cut or nb in self.cut_blocks.get(q, ()):
                         continue
                     s3 = s2
                     ecs = edge_cls.get((b, nb))
@@ -244,11 +296,11 @@ class TxnEngine(pair.PairEngine):
                         m, sv, tag, ex = s2
                         ntag = tag
                         for (cb, cls) in ecs:
-                            if tag is not None and tag[0] == cb:
-                                if tag[1] != cls:
-                                    keep = False
-                                else:
-                                    ntag = None
+                            known = tag_get(tag, cb)
+                            if known is not None and known != cls:
+                                keep = False
+                            elif known is None and cb in meta['fwd_calls']:
+                                ntag = tag_add(ntag, cb, cls)
                         if not keep:
                             continue
                         s3 = (m, sv, ntag, ex)
@@ -276,53 +328,45 @@ class TxnEngine(pair.PairEngine):
                 break
         return {'blocks': [b for b, _ in path], 'events': events, 'exit_block': exit_bb, 'final': final}
 
-    def blame(self, q, ridx, depth=0, seen=None):
-        """Innermost body whose own mutation reaches its own failure exit uncleaned.
-        Returns (chain of names, root-cause key, description)."""
-        seen = seen if seen is not None else set()
-        if (q, ridx) in seen or depth > 14:
-            return [q], q, 'recursive'
-        seen.add((q, ridx))
+    def own_root(self, q, ridx, owners):
+        """One dirty failure exit of q itself.  Returns None when q is clean on failure, else a dict
+        {exit_block, exit, source, derived_from}: `derived_from` names a callee in `owners` whose
+        own dirty failure q merely propagates (then q is not the root cause)."""
         w = self.dirty_fail_witness(q, ridx)
-        body = self.prog.bodies[q]
         if not w:
-            return [q], q, 'no witness path reconstructed'
-        # the last event that made the state dirty on this path
+            return None
+        body = self.prog.bodies[q]
         last_dirty = None
         for e in w['events']:
             if e['event'] == 'm':
                 last_dirty = e
             elif e['event'] in ('call', 'call_nob'):
                 cq, ci = e['what'][0], e['what'][1]
-                summ = self.summary.get((cq, ci), ())
-                if any(cm for (_, cm) in summ):
+                if any(cm for (_, cm) in self.summary.get((cq, ci), ())):
                     last_dirty = e
             elif e['event'] in ('restore', 'inverse'):
                 last_dirty = None
         exit_desc = self._exit_desc(body, w)
+        res = {'exit_block': w.get('exit_block'), 'exit': exit_desc, 'source': 'unknown', 'derived_from': None,
+               'line': None, 'blocks': w['blocks']}
+        eb = w.get('exit_block')
+        if eb is not None:
+            res['line'] = body.blocks[eb].term.line
         if last_dirty is None:
-            return [q], q, 'dirty at ' + exit_desc
+            return res
         if last_dirty['event'] == 'm':
-            what = last_dirty['what'][-1]
-            return [q], '%s|%s' % (q, exit_desc), 'mutation `%s` (line %s) then failure exit %s without restore' % (
-                what, last_dirty['what'][0], exit_desc)
+            res['source'] = 'write %s (line %s)' % (last_dirty['what'][-1], last_dirty['what'][0])
+            return res
         cq, ci = last_dirty['what'][0], last_dirty['what'][1]
-        summ = self.summary.get((cq, ci), ())
-        # does the failure come from the callee itself being dirty-on-fail, on the path where we
-        # forward / propagate its failure?
-        callee_fail_dirty = ('fail', 1) in summ
-        fwd_of_callee = False
-        final_tag = w['final'][2]
-        if final_tag is not None and self.prog.bodies[q].blocks[final_tag[0]].term.k == 'call':
-            t = self.prog.bodies[q].blocks[final_tag[0]].term
-            fwd_of_callee = (t.resolved or t.callee) == cq and final_tag[1] == 'fail'
-        # propagated failure of the same callee (`?` right after the call)
-        propagated = self._propagates(body, w, cq)
-        if callee_fail_dirty and (fwd_of_callee or propagated):
-            chain, key, desc = self.blame(cq, ci, depth + 1, seen)
-            return [q] + chain, key, desc
-        return [q], '%s|%s|after:%s' % (q, exit_desc, cq.rsplit('::', 1)[-1]), \
-            'storage mutated by %s (line %s), then failure exit %s without restore' % (cq, last_dirty['what'][-1], exit_desc)
+        res['source'] = 'call %s (line %s)' % (short(cq), last_dirty['what'][-1])
+        # propagated dirty failure of an owner callee (anywhere on the path)?
+        for e in w['events']:
+            if e['event'] in ('call', 'call_nob'):
+                oq, oi = e['what'][0], e['what'][1]
+                if oq in owners and oq != q and ('fail', 1) in self.summary.get((oq, oi), ()) and \
+                        self._propagates(body, w, oq):
+                    res['derived_from'] = oq
+        return res
 
     def _propagates(self, body, w, callee):
         """Does the witness path take the failure edge of a call to `callee` and return?"""
@@ -359,16 +403,18 @@ class TxnEngine(pair.PairEngine):
         if t.k == 'call' and t.dest is not None and t.dest.is_local() and t.dest.local == 0:
             name = (t.resolved or t.callee or '')
             if name.endswith('from_residual'):
-                # which call's failure is propagated: find the call whose err edge leads here
+                # which call's failure is propagated: the call whose err edge leads here,
+                # preferring the crate's own callee over the std adapters on the way
                 cflows = flow.all_call_flows(body)
-                best = None
+                cands = []
                 for cb, cf in cflows.items():
                     for (src, dst) in cf.err_edges:
                         if dst == eb:
                             ct = body.blocks[cb].term
-                            best = (ct.resolved or ct.callee or '?')
-                if best:
-                    return '?(%s)' % best.rsplit('::', 1)[-1]
+                            cands.append((ct.callee_krate == 'delaunay', cb, ct.resolved or ct.callee or '?'))
+                if cands:
+                    cands.sort(key=lambda c: (not c[0], c[1]))
+                    return '?(%s)' % short(cands[0][2])
                 return '?'
-            return 'return %s(..)' % name.rsplit('::', 1)[-1]
+            return 'return %s(..)' % short(name)
         return 'return'
